@@ -72,6 +72,8 @@ package archiver
 //@   after WithValue(*): attached = feedbackChan
 //@   after Do(*): sentWith = attached
 //@   assert recv(feedbackChan)#1: [waits-own] @C02 feedbackChan == sentWith && feedbackChan != nil // C02: archive() blocks on the feedback channel before SetStatus(ItemArchived) (the channel carried by the request that was actually sent)
+//@   assert SetStatus(*): [own-node] @C01 arg0 == item // C01: each stage only works on nodes at the tree's max depth (the fetch goroutine of a node records the outcome on that node, never on the seed or a sibling)
+//@   ensures [outcome-recorded] @C01 item.status == models.ItemArchived || item.status == models.ItemFailed // C01: every URL in its tree has been fetched, skipped or has failed for good (every fetch ends with its node archived or failed)
 //@   local fbWaited int = 0
 //@   after recv(feedbackChan)#1: fbWaited = 1
 //@   assert SetStatus(item)#4: [after-feedback] @C02 config.config.WARCWriteAsync || fbWaited == 1 // C02: with synchronous WARC writing the URL is marked archived only after the WARC writer signalled that the records are written
